@@ -29,6 +29,30 @@ def from_bban_sweep(seed, per_country):
     return n, None
 
 
+def lookup_constructor_sweep():
+    """BOUNDED (exhaustive on the bundled registry): the lookup constructors BIC.from_bank_code /
+    candidates_from_bank_code let only library exceptions escape - every registry key, plus unlisted pairs"""
+    from pyvc import task as T
+    from schwifty import BIC, registry
+    n = 0
+    keys = list(registry.get("bank_code")) + [("DE", "00000000"), ("XX", "1"), ("", ""), ("FR", "99999"), ("DK", "")]
+    for cc, code in keys:
+        for fn in (BIC.from_bank_code, BIC.candidates_from_bank_code):
+            n += 1
+            o = T.native_obs(lambda: fn(cc, code))
+            if isinstance(o, T.Escape):
+                return n, dict(constructor=fn.__name__, country=cc, bank_code=code, outcome=repr(o))
+    return n, None
+
+
+class LookupReplay:
+    def native_agree(self, wit):
+        from pyvc import task as T
+        from schwifty import BIC
+        o = T.native_obs(lambda: getattr(BIC, wit["constructor"])(wit["country"], wit["bank_code"]))
+        return not isinstance(o, T.Escape), repr(o), "a return or a library exception"
+
+
 class FromBbanReplay:
     def native_agree(self, wit):
         from pyvc import task as T
@@ -56,6 +80,12 @@ def main(seed, tier):
                                           kind="bounded", status="discharged" if wit is None else "refuted", backend="cpython",
                                           secs=0.0, witness=wit,
                                           detail="" if wit is None else f"replayed natively: {wit}")]))
+    n_lk, wit2 = lookup_constructor_sweep()
+    results.append(dict(task="lookup constructors", functions={}, files={}, paths=0, error=None, spec=["props.c05", "LookupReplay", []],
+                        obligations=[dict(name=f"BIC.from_bank_code / candidates_from_bank_code let only library exceptions escape "
+                                               f"({n_lk} calls: every registry key and unlisted pairs, bounded)",
+                                          kind="bounded", status="discharged" if wit2 is None else "refuted", backend="cpython",
+                                          secs=0.0, witness=wit2, detail="" if wit2 is None else f"replayed natively: {wit2}")]))
     return common.finish(
         "C05", results, t0, seed, tier, assumptions=c01.ASSUMPTIONS + [
             "A5 pycountry membership as probed by C04",
